@@ -16,12 +16,15 @@ pub struct Obs {
   pub wr: Vec<(u16, u8)>,
   pub rd: Vec<u16>,
   pub panic: bool,
+  /// callee-saved host registers the translated code did not preserve (crate::abi), 0 for the interpreter
+  pub abi: u32,
 }
 
 impl Obs {
   pub fn to_json(&self) -> Value {
     json!({"s": self.cpu.to_json(), "st": self.st, "cyc": self.cyc,
-           "wr": self.wr.iter().map(|w| json!([w.0, w.1])).collect::<Vec<_>>(), "panic": self.panic})
+           "wr": self.wr.iter().map(|w| json!([w.0, w.1])).collect::<Vec<_>>(), "panic": self.panic,
+           "abi": crate::abi::describe(self.abi)})
   }
 }
 
@@ -46,7 +49,7 @@ pub fn step_interp(core: &mut Core) -> Obs {
   let (st, panic) = match r { Ok(Some((st, _))) => (st as i64, false), Ok(None) => (-2, false), Err(_) => (-1, true) };
   let cyc = core.registers.cycles;
   Obs { cpu: Cpu::read(&core.registers), st, cyc, wr: writes_only(&log),
-        rd: log.iter().filter(|e| !e.0).map(|e| e.1).collect(), panic }
+        rd: log.iter().filter(|e| !e.0).map(|e| e.1).collect(), panic, abi: 0 }
 }
 
 pub fn block_interp(core: &mut Core) -> Obs {
@@ -57,7 +60,7 @@ pub fn block_interp(core: &mut Core) -> Obs {
   let (st, panic) = match r { Ok(st) => (st as i64, false), Err(_) => (-1, true) };
   let cyc = core.registers.cycles;
   Obs { cpu: Cpu::read(&core.registers), st, cyc, wr: writes_only(&log),
-        rd: log.iter().filter(|e| !e.0).map(|e| e.1).collect(), panic }
+        rd: log.iter().filter(|e| !e.0).map(|e| e.1).collect(), panic, abi: 0 }
 }
 
 /// Translate the block at the current ip (always a fresh translation) and run it.
@@ -71,13 +74,16 @@ pub fn block_jit(core: &mut Core) -> Obs {
   rec_start();
   let r = catch_unwind(AssertUnwindSafe(|| {
     let off = core.cache.translate_code_block(&core.memory.rom, ip, memp);
-    core.cache.call(off, &mut core.registers)
+    // the same call as CodeCache::call makes, with known values in the callee-saved host registers
+    let (entry, exit) = core.cache.verif_entry_points();
+    let block = core.cache.get_memory_start_address() + off;
+    unsafe { crate::abi::canary_call(entry, &mut core.registers as *mut _, block, exit) }
   }));
   let log = rec_stop();
-  let (st, panic) = match r { Ok(st) => (st as i64, false), Err(_) => (-1, true) };
+  let (st, panic, abi) = match r { Ok((st, abi)) => (st as i64, false, abi), Err(_) => (-1, true, 0) };
   let cyc = core.registers.cycles;
   Obs { cpu: Cpu::read(&core.registers), st, cyc, wr: writes_only(&log),
-        rd: log.iter().filter(|e| !e.0).map(|e| e.1).collect(), panic }
+        rd: log.iter().filter(|e| !e.0).map(|e| e.1).collect(), panic, abi }
 }
 
 pub fn mem_hash(core: &Core) -> u64 {
@@ -169,6 +175,7 @@ pub fn run(args: &[String]) {
         if oi.cyc != oj.cyc { d.push("cyc".into()); }
         if oi.wr != oj.wr { d.push("wr".into()); }
         if mem_hash(&ci) != mem_hash(&cj) { d.push("mem".into()); }
+        if oj.abi != 0 { d.push(format!("host:{}", crate::abi::describe(oj.abi))); }
       }
       if !d.is_empty() {
         let line = json!({"kind": "pair", "id": case["id"], "op": case["op"], "cb": case["cb"],
@@ -222,6 +229,7 @@ pub fn blocks(args: &[String]) {
       if !status_eq(oi.st, oj.st) { d.push("st".into()); }
       if oi.wr != oj.wr { d.push("wr".into()); }
       if mem_hash(&ci) != mem_hash(&cj) { d.push("mem".into()); }
+      if oj.abi != 0 { d.push(format!("host:{}", crate::abi::describe(oj.abi))); }
       let (pi, pj) = (crate::cmd_machine::project(&mut ci), crate::cmd_machine::project(&mut cj));
       for k in ["iflag", "ie", "div", "tima", "tma", "tac", "lyc", "en", "dact", "dpage", "p1", "jpend"].iter() { if pi[*k] != pj[*k] { d.push(format!("io.{}", k)); } }
       if oi.cyc != oj.cyc { d.push("cyc".into()); }
